@@ -1,9 +1,20 @@
-import Claripy.Solver.Spec
+import ClaripyProofs.Lemmas.Solver.Extrema
 /-!
 # C11 — solver answers after any history (Solver, SolverCacheless, SolverStrings)
 
 The classes are the mixin layers composed in the order of `Claripy.Gen.SolverMro.mro`, which is regenerated
-from `claripy/solvers.py` on every run.
+from `claripy/solvers.py` on every run.  `Judge` (Claripy/Solver/Spec.lean) is the property statement.
+
+Proved here, for EVERY oracle that is exact when it answers (`OracleExact`), every solver-object state and every
+model callback that only touches the frontend record (`HookOk`):
+  * `C11_satisfiable_exact`, `C11_solution_exact` — `_satisfiable` / `_solution`
+  * `C11_batch_eval_correct` — `_batch_eval`: feasible, pairwise distinct, complete when fewer than `n` exist, and
+    the assertion frames of the solver object are restored (push/pop balance)
+  * `C11_extrema_correct` — `_extrema`: the binary search returns the true optimum in the requested signedness
+    (loop invariant `lo ≤ opt ≤ hi`; `bits + 1` iterations suffice)
+  * every model handed to the callback is a partial model of the assertions (what `ModelsValid` needs).
+The full refinement statement is `C11_full`; see design_notes/C11.md for what is covered by proof and what by the
+trace correspondence only.
 -/
 namespace Claripy.Props.C11
 open Claripy.Solver Claripy.Gen.SolverMro LayerName
@@ -21,5 +32,68 @@ theorem C11_mro_cacheless : mro .SolverCacheless =
 theorem C11_mro_strings : mro .SolverStrings =
     [ConcreteHandlerMixin, ConstraintFilterMixin, ConstraintDeduplicatorMixin, EagerResolutionMixin,
      FullFrontend, ConstrainedFrontend, Frontend] := by decide
+
+/-- The full statement (refinement `answers ⊑ Spec`): over every environment satisfying the named hypotheses,
+for every configuration and EVERY history of well-formed calls on a tree of branched solvers, each outcome is one
+the stateless reference `Judge` allows for the constraints the user had added to that solver at that moment. -/
+def C11_full (cls : SolverClass) : Prop :=
+  ∀ (E : Env), OracleExact E → NoGiveUp E → BuildExact E → SimplifyEquiv E → CheapSound E → PickValid E →
+  ∀ (track reuse : Bool) (hist : List (Nat × Op)), (∀ io ∈ hist, io.2.Wf) →
+    ∀ x ∈ runHist E cls (World.init track reuse) [[]] hist, Judge x.1 x.2.1 x.2.2
+
+/-- `_satisfiable` over an exact oracle is exact and leaves the solver object's frames alone -/
+theorem C11_satisfiable_exact {E : Env} (hE : OracleExact E) {hook : PModel → M Unit} {A : List ZCon}
+    {P : Frontend → Prop} (hh : HookOk hook A P) (r : Nat) (extra : List ZCon) (s : St)
+    (hA : ∀ c ∈ A, c ∈ (objAt s r).asserted) :
+    match z3Satisfiable E r extra hook s with
+    | (.ok b, s') => (b = true ↔ ∃ a, SatBy ((objAt s r).asserted ++ extra) a) ∧ L1Step r P s s' ∧
+                     (objAt s' r).frames = (objAt s r).frames
+    | (.error e, s') => e = .giveUp ∧ L1Step r P s s' ∧ (objAt s' r).frames = (objAt s r).frames :=
+  z3Satisfiable_spec hE hh r extra s hA
+
+/-- `_batch_eval n`: every tuple is attained, tuples are pairwise distinct, at most `n`, and if fewer than `n` are
+returned then every attained tuple is among them; frames restored -/
+theorem C11_batch_eval_correct {E : Env} (hE : OracleExact E) {hook : PModel → M Unit} {A : List ZCon}
+    {P : Frontend → Prop} (hh : HookOk hook A P) (r : Nat) (exprs : List Exp) (n : Nat) (extra : List ZCon) (s : St)
+    (hr : r < s.objs.length) (hne : (objAt s r).frames ≠ []) (hA : ∀ c ∈ A, c ∈ (objAt s r).asserted) :
+    match z3BatchEval E r exprs n extra hook s with
+    | (.ok ts, s') =>
+        (∀ t ∈ ts, Realises ((objAt s r).asserted ++ extra) exprs t) ∧ ts.Nodup ∧ ts.length ≤ n ∧
+        (ts.length < n → ∀ a, SatBy ((objAt s r).asserted ++ extra) a → exprs.map (·.val a) ∈ ts) ∧
+        L1Step r P s s' ∧ (objAt s' r).frames = (objAt s r).frames
+    | (.error e, s') => e = .giveUp ∧ L1Step r P s s' ∧ (objAt s' r).frames = (objAt s r).frames :=
+  z3BatchEval_spec hE hh r exprs n extra s hr hne hA
+
+/-- `_extrema`: the true optimum, as an integer in the range of the requested signedness -/
+theorem C11_extrema_correct {E : Env} (hE : OracleExact E) {hook : PModel → M Unit} {A : List ZCon}
+    {P : Frontend → Prop} (hh : HookOk hook A P) (r : Nat) (isMax : Bool) (e : Exp) (extra : List ZCon)
+    (signed : Bool) (he : ExpWf e) (s : St) (hA : ∀ c ∈ A, c ∈ (objAt s r).asserted)
+    (hsat : ∃ a, SatBy ((objAt s r).asserted ++ extra) a) :
+    match z3Extrema E r isMax e extra signed hook s with
+    | (.ok i, s') => IsOptZ isMax signed ((objAt s r).asserted ++ extra) e i ∧ L1Step r P s s' ∧
+                     (objAt s' r).frames = (objAt s r).frames
+    | (.error err, s') => err = .giveUp ∧ L1Step r P s s' ∧ (objAt s' r).frames = (objAt s r).frames :=
+  z3Extrema_spec hE hh r isMax e extra signed he s hA hsat
+
+/-! ### non-vacuity: a concrete exact run of the binary search (unsigned max of a 3-bit value constrained to ≤ 5) -/
+
+def demoExp : Exp := { id := 1, bits := 3, vars := [0], val := fun a => a 0 % 8 }
+def demoCon : ZCon := ⟨.con 1, fun a => decide (a 0 % 8 ≤ 5)⟩
+/-- an exact oracle for the demo: enumerates the 8 values -/
+def demoOracle (q : Query) (_k : Nat) : Answer :=
+  match (List.range 8).find? (fun v => q.holds (fun _ => v)) with
+  | some v => .sat [v] [0]
+  | none => .unsat []
+def demoEnv : Env :=
+  { dflt := fun _ => 0, oracle := demoOracle, build := fun _ => default, falseCon := default,
+    cheapFalse := fun _ _ _ => false, truth := fun _ _ _ => false, simp := fun cs _ => cs, pick := fun all _ _ => all }
+def demoSt : St := { objs := [{ frames := [[demoCon]] }] }
+
+example : (z3Extrema demoEnv 0 true demoExp [] false (fun _ => pure ()) demoSt).1.toOption = some 5 := by
+  decide +kernel
+example : (z3Extrema demoEnv 0 false demoExp [] true (fun _ => pure ()) demoSt).1.toOption = some (-4) := by
+  decide +kernel
+example : ((z3BatchEval demoEnv 0 [demoExp] 20 [] (fun _ => pure ()) demoSt).1.toOption.map List.length) = some 6 := by
+  decide +kernel
 
 end Claripy.Props.C11
